@@ -12,6 +12,7 @@ observable state and the same data (STATUS of every mailbox of every user).
 """
 from __future__ import annotations
 import asyncio
+import re
 import base64
 import itertools
 import random
@@ -151,14 +152,23 @@ async def run_sequence(srv, names, local, probe=True):
     if not local:
         c.pipe.peer = ('8.8.8.8', 4321)
         c._sock_info = SocketInfoLocal(c.pipe)
-    await c.start()
+    greeting = await c.start()
     out = []
+    issues = []
+
+    def advertised(raw, cur):
+        # the capabilities the client was last told: greeting / response codes / CAPABILITY answers
+        found = re.findall(rb'\[CAPABILITY ([^\]]*)\]', raw) + re.findall(rb'^\* CAPABILITY ([^\r]*)', raw, re.M)
+        return set(found[-1].upper().split()) if found else cur
+    adv = advertised(greeting if isinstance(greeting, (bytes, bytearray)) else b'', None)
     for name in names:
         lines, _ = ALPHABET[name]
         if c.task.done():
             out.append('CLOSED')
             continue
+        tls_before = bool(getattr(c.pipe, 'tls', False))
         raw = await c.send(b't ' + lines[0] + b'\r\n')
+        opened = raw.rstrip(b'\r\n').split(b'\r\n')[-1].startswith(b'+') if raw else False
         for cont in lines[1:]:
             if c.task.done() or _tagged_safe(raw, b't'):
                 break
@@ -166,12 +176,30 @@ async def run_sequence(srv, names, local, probe=True):
             if not last.startswith(b'+'):
                 break
             raw += await c.send(cont + b'\r\n')
-        out.append(classify(raw, c.task.done()))
+        res = classify(raw, c.task.done())
+        out.append(res)
+        word = lines[0].split(b' ')[0].upper()
+        # what the server accepts must be what it last advertised
+        if adv is not None:
+            if word == b'LOGIN' and res == 'OK' and b'LOGINDISABLED' in adv:
+                issues.append(f'{name}: LOGIN was accepted although the capabilities last advertised say LOGINDISABLED ({sorted(adv)})')
+            if word == b'AUTHENTICATE' and (opened or res == 'OK'):
+                mech = lines[0].split(b' ')[1].upper()
+                if b'AUTH=' + mech not in adv:
+                    issues.append(f'{name}: an AUTHENTICATE {mech.decode()} exchange was opened although AUTH={mech.decode()} is not among the capabilities last advertised ({sorted(adv)})')
+        tls_after = bool(getattr(c.pipe, 'tls', False))
+        if tls_after and not tls_before and not (word == b'STARTTLS' and res == 'OK'):
+            issues.append(f'{name}: the server started a TLS handshake on the transport although the command was answered {res}')
+        if word == b'STARTTLS' and res == 'OK' and not tls_after:
+            issues.append(f'{name}: STARTTLS was answered OK but no TLS handshake was started')
+        if word == b'STARTTLS' and res == 'OK':
+            adv = None          # RFC 3501 6.2.1: the client discards what it knew
+        adv = advertised(raw, adv)
     obs = None
     if probe:
         obs = await observe(c)
     await c.eof()
-    return out, obs
+    return out, obs, issues
 
 
 async def observe(c):
@@ -293,7 +321,9 @@ async def run_batch(part, seqs, prop, refused_check=True):
             case = dict(tls=tls, local=local, sequence=list(names))
             srv, config = await make_server(tls)
             sizes = await sizes_of(srv)
-            real, obs = await run_sequence(srv, names, local)
+            real, obs, issues = await run_sequence(srv, names, local)
+            for issue in issues:
+                part.violation('monitor', f'{prop}: config tls={tls} local={local}: {issue}; sequence {list(names)}', case, signature='advertised-vs-accepted')
             mod = model_run(m, names, tls, local)
             part.case(key=repr((tls, local, names)), nontrivial=len(set(names)) > 1 or len(names) == 1,
                       sample=dict(tls=tls, local=local, sequence=list(names), results=real))
@@ -351,7 +381,7 @@ async def run_batch(part, seqs, prop, refused_check=True):
                     reduced = tuple(n for j, n in enumerate(names) if j not in refused)
                     d1 = await data_dump(srv)
                     srv2, _ = await make_server(tls)
-                    real2, obs2 = await run_sequence(srv2, reduced, local)
+                    real2, obs2, _ = await run_sequence(srv2, reduced, local)
                     d2 = await data_dump(srv2)
                     part.stat('refused-noop-checked')
                     if obs2 != obs or d1 != d2:
